@@ -72,6 +72,12 @@ CHECKS = {
         note="Trusted: Lean kernel; harness; SQLite enforcing the declared UNIQUE/PK/FK constraints; PostgreSQL paths not executable here. The model follows the implementation where an existing collection name is returned whatever type is asked for (registerCollection returns False).",
         design="DESIGN.md §5 C02",
     ),
+    "C07": dict(
+        technique="Lean 4 proof (transaction programs as an inductive type; run of a failed block restores files, registry and undo stack exactly, for every program, nesting depth and fuel) + correspondence of generated programs on a real Butler + fault injection at every SQL / file boundary of the additive and removal operations with a snapshot-equality oracle",
+        text="rollback_exact, effect_all (every program run from any state either commits files/registry extensions that are exactly its own puts or, when it fails, restores the state it started from, with caught inner failures at any depth), failed_block_restores and txn_state_restored (the datastore transaction stack is the same after any block, failed or not) are proved in Lean 4 for every program and every fuel; old_code_leaks / new_code_restores_witness keep the repaired defect C07-a as a kernel-checked regression witness. The model is compared with Butler.transaction() programs (nesting <= 3, caught / uncaught failures) on a real repository; put, put-in-block, ingest(copy, move), import_, transfer_from, pruneDatasets(purge) and removeRuns are run once per SQL / filesystem boundary with a fault injected there and the registry dump, records table and recursive root listing are compared before/after.",
+        note="Partial: the Lean model covers the transaction/undo-log state machine; the fault enumeration over real operations is an exhaustive-per-boundary correspondence, not a theorem about SQLite or POSIX. Trusted: Lean kernel; harness and injector; SQLite transaction/SAVEPOINT semantics. Faults that the code swallows by design (ignore_errors=True in Datastore.trash/emptyTrash), after which the removal returns normally, are outside the property's 'removal that fails' clause and are reported as observations.",
+        design="DESIGN.md §5 C07",
+    ),
     "C10": dict(
         technique="Lean 4 proof (exact state equations for purge over the registry+datastore model, corollaries of the C02 invariants) + history correspondence on a real Butler with existence probes of every dataset + set oracle",
         text="purge_exact (purge is always accepted and leaves exactly the old tables / datastore records / artifacts minus the targets), purge_members (membership of every collection = old minus targets), purge_others_untouched, purge_targets_gone, orphan_refused (the registry refuses to forget a dataset a datastore still holds, changing nothing), purge_inv, exists_flags_consistent, extDelete_flags are proved in Lean 4. The model is compared with a real Butler on seeded histories mixing puts, tagging, certification, chaining, the three prune modes, registry.removeDatasets, removeRuns and external deletion of artifacts; after every step exists(full_check) / _exists_many / stored / query membership / directory listing of every dataset ever created are compared with the model and with the harness's own sets.",
